@@ -361,6 +361,47 @@ Definition st_P_defaults (f : nat) : Prop := forall chs c c',
 Definition st_P_pairs (f : nat) : Prop := forall l c c',
   compile_pairs f l c = COk tt c' -> forall g, (f <= g)%nat -> st_tr c c' (st_cpairs g l).
 
+(* an expression that has a printed form defines no function: what follows a `.` (named by its
+   printed form, not compiled) contributes nothing to the collected table *)
+Lemma estr_collect_id : forall fuel e s, estr fuel e = Some s -> forall g t, collect_expr g e t = t.
+Proof.
+  induction fuel as [|f IH]; [discriminate|].
+  intros e s H g t. destruct g as [|g]; [reflexivity|].
+  destruct e as [ti z|tf x|s0|b|rv fl|n|op r|op e1 e2|n op|e1 e2 e3|l|l|e1 e2|fn l|n v|n|c0 cns alt|c0 body|idx ident v body|n ps bd|v cs];
+    cbn [estr] in H; try discriminate H; try reflexivity.
+  - (* EPrefix *)
+    change (collect_expr (S g) (EPrefix op r) t) with (collect_expr g r t).
+    destruct (estr f r) eqn:E; [|discriminate]. eapply IH; exact E.
+  - (* EInfix *)
+    change (collect_expr (S g) (EInfix op e1 e2) t) with (collect_expr g e2 (collect_expr g e1 t)).
+    destruct (estr f e1) eqn:E1; [|discriminate]. destruct (estr f e2) eqn:E2; [|discriminate].
+    rewrite (IH _ _ E1). eapply IH; exact E2.
+  - (* ETernary *)
+    change (collect_expr (S g) (ETernary e1 e2 e3) t)
+      with (collect_expr g e3 (collect_expr g e2 (collect_expr g e1 t))).
+    destruct (estr f e1) eqn:E1; [|discriminate]. destruct (estr f e2) eqn:E2; [|discriminate].
+    destruct (estr f e3) eqn:E3; [|discriminate].
+    rewrite (IH _ _ E1), (IH _ _ E2). eapply IH; exact E3.
+  - (* EArray *)
+    change (collect_expr (S g) (EArray l) t) with (fold_left (fun acc x => collect_expr g x acc) l t).
+    revert H. generalize (@nil str) as acc. induction l as [|x l IHl]; intros acc H; [reflexivity|].
+    cbn [fold_left]. simpl in H. destruct (estr f x) eqn:Ex; [|discriminate].
+    rewrite (IH _ _ Ex). eapply IHl. exact H.
+  - (* EIndex *)
+    change (collect_expr (S g) (EIndex e1 e2) t) with (collect_expr g e2 (collect_expr g e1 t)).
+    destruct (estr f e1) eqn:E1; [|discriminate]. destruct (estr f e2) eqn:E2; [|discriminate].
+    rewrite (IH _ _ E1). eapply IH; exact E2.
+  - (* ECall *)
+    change (collect_expr (S g) (ECall fn l) t) with (fold_left (fun acc x => collect_expr g x acc) l t).
+    destruct (estr f fn) as [a|]; [|discriminate].
+    revert H. generalize (@nil str) as acc. induction l as [|x l IHl]; intros acc H; [reflexivity|].
+    cbn [fold_left]. simpl in H. destruct (estr f x) eqn:Ex; [|discriminate].
+    rewrite (IH _ _ Ex). eapply IHl. exact H.
+  - (* EAssign *)
+    change (collect_expr (S g) (EAssign n v) t) with (collect_expr g v t).
+    destruct (estr f v) eqn:E; [|discriminate]. eapply IH; exact E.
+Qed.
+
 Lemma st_all_fuel : forall f,
   st_P_expr f /\ st_P_exprs f /\ st_P_stmt f /\ st_P_block f /\
   st_P_case_exprs f /\ st_P_cases f /\ st_P_defaults f /\ st_P_pairs f.
@@ -388,7 +429,14 @@ Proof.
         destruct (prefix_opcode op); [|discriminate]. injection H as <-.
         st_wk ltac:(st_c1 (IHe _ _ _ E1 g Hg'); st_end).
       * (* EInfix *)
-        rewrite ExprProofs.compile_infix_eq in H.
+        destruct (tokty_eq_dec op TPeriod) as [->|Hne].
+        { (* `l.r`: r is not compiled; it has a printed form, so it defines no function *)
+          destruct (ExprProofs.compile_dot_inv _ _ _ _ _ H) as (c1 & name & E1 & En & ->).
+          eapply st_tr_weaken; [st_c1 (IHe _ _ _ E1 g Hg'); st_end|].
+          intros t. cbv beta.
+          change (collect_expr (S g) (EInfix TPeriod e1 e2) t) with (collect_expr g e2 (collect_expr g e1 t)).
+          rewrite (estr_collect_id _ _ _ En). reflexivity. }
+        rewrite ExprProofs.compile_infix_eq in H by exact Hne.
         destruct (compile_expr f e1 c) as [[] c1| | |] eqn:E1; try discriminate. cbn [cbind] in H.
         destruct (compile_expr f e2 c1) as [[] c2| | |] eqn:E2; try discriminate. cbn [cbind] in H.
         pose proof (IHe _ _ _ E1 g Hg') as R1. pose proof (IHe _ _ _ E2 g Hg') as R2.
@@ -1298,6 +1346,30 @@ Proof.
     + pos.
 Qed.
 
+(* `l.r`: the code is that of `l[name]`, name the printed form of r; r itself is neither compiled nor run *)
+Lemma sx_dot_S : forall obj f l r m,
+  sx o fns obj afs (S f) (EInfix TPeriod l r) m =
+  then_ (sx o fns obj afs f l m) (fun m1 => pop1s m1 (fun a m2 =>
+    pushr m2 (match estr 64 r with Some name => spec_index o a (VStr name) | None => Err ENeedOracle end))).
+Proof. reflexivity. Qed.
+
+Lemma cc_dot_g : forall l r name c c1 Q1,
+  cstate_ok c -> res_ok c c1 (sp_x l) Q1 -> estr 64 r = Some name ->
+  res_ok c (emit0 OpIndex (emit_const (VStr name) c1)) (sp_x (EInfix TPeriod l r)) nonempty.
+Proof.
+  intros l r name c c1 Q1 Hc R1 Hn.
+  assert (Hc1 : cstate_ok c1) by (destruct R1 as (? & E1 & _); apply E1).
+  apply (cc_binary_g (EInfix TPeriod l r) l (EStr name) OpIndex (spec_index o) c c1 _ Q1 nonempty Hc R1).
+  - apply cc_const_g; [exact Hc1|reflexivity].
+  - intros obj f m. rewrite sx_dot_S, Hn.
+    destruct f as [|f]; [reflexivity|].
+    destruct (sx o fns obj afs (S f) l m) as [m1|v m1|x m1]; try reflexivity. cbn [then_].
+    change (sx o fns obj afs (S f) (EStr name) m1) with (XNormal (push m1 (VStr name))). cbn [then_].
+    destruct m1 as [s e t p]. destruct s as [|a s]; reflexivity.
+  - apply bin_step_g_index.
+  - split; [vm_compute; reflexivity|let H := fresh in intro H; vm_compute in H; discriminate H].
+Qed.
+
 End Sem.
 
 Local Ltac side := try eassumption; try (solve [pe]); try lia; try (apply Calls_S; eassumption).
@@ -1421,7 +1493,7 @@ Proof.
           | Ok v => XNormal (set_menv m3 (env_set (menv m3) (trim_dollar name) v))
           | Err x => XErr x m3
           end)))).
-    { cbn [sx]. rewrite Hm. reflexivity. }
+    { destruct tok; try discriminate Hm; cbn [sx]; rewrite Hm; reflexivity. }
     rewrite Heq. clear Heq.
     cbn [emit0 consts] in Hsz, Hpool.
     assert (Hi : i < 65536) by (apply nthN_some_lt in Hn; lia).
@@ -2742,9 +2814,6 @@ Ltac split_and :=
 
 Local Ltac infix_case_g o fns afs e1 e2 c c1 c2 Hc R1 R2 :=
   match goal with
-  | |- res_ok _ _ _ _ _ (sp_x _ _ _ (EInfix TPeriod _ _)) _ =>
-      apply (cc_binary_g o fns afs _ e1 e2 OpIndex (spec_index o) c c1 c2 _ _ Hc R1 R2);
-      [intros; reflexivity | apply bin_step_g_index | plain_tac]
   | |- res_ok _ _ _ _ _ (sp_x _ _ _ (EInfix TDotDot _ _)) _ =>
       apply (cc_binary_g o fns afs _ e1 e2 OpRange vm_range c c1 c2 _ _ Hc R1 R2);
       [intros; reflexivity | apply bin_step_g_range | plain_tac]
@@ -2836,12 +2905,17 @@ Proof.
         -- apply (cc_unary_g o fns afs _ e OpSquareRoot vm_sqrt c c1 _ Hc R1);
              [intros; reflexivity | apply un_step_g_sqrt | plain_tac].
       * (* EInfix *)
-        rewrite compile_infix_eq in H. rewrite ls_infix in Hs. split_and.
+        rewrite ls_infix in Hs. split_and.
+        destruct (tokty_eq_dec op TPeriod) as [->|Hne].
+        { destruct (compile_dot_inv _ _ _ _ _ H) as (c1 & name & E1 & En & ->). ne.
+          exact (cc_dot_g o fns afs e1 e2 name c c1 _ Hc (IHe e1 c c1 Hc ltac:(assumption) E1) En). }
+        rewrite compile_infix_eq in H by exact Hne.
         destruct (compile_expr f e1 c) as [[] c1| | |] eqn:E1; try discriminate. cbn [cbind] in H.
         destruct (compile_expr f e2 c1) as [[] c2| | |] eqn:E2; try discriminate. cbn [cbind] in H.
         pose proof (IHe e1 c c1 Hc ltac:(assumption) E1) as R1.
         pose proof (IHe e2 c1 c2 (res_ok_ok _ _ _ _ _ _ _ R1) ltac:(assumption) E2) as R2.
         destruct op; cbn [infix_opcode is_mutator] in H; try discriminate;
+          try (exfalso; apply Hne; reflexivity);
           first [ injection H as <-; ne; infix_case_g o fns afs e1 e2 c c1 c2 Hc R1 R2
                 | destruct e1; try discriminate; injection H as <-; ne;
                   mutate_case o fns afs e2 c c1 c2 Hc R1 R2 ].
